@@ -174,3 +174,36 @@ func containingList(parents map[ast.Node]ast.Node, stmt ast.Node) ([]ast.Stmt, i
 	}
 	return nil, -1
 }
+
+// closureBodies returns the body of fn followed by the bodies of the functions of the same package
+// that it calls statically, transitively up to the given depth (helpers extracted from fn).
+func closureBodies(w *World, p *packages.Package, fn *types.Func, depth int) []*ast.BlockStmt {
+	var out []*ast.BlockStmt
+	seen := map[*types.Func]bool{}
+	var visit func(f *types.Func, d int)
+	visit = func(f *types.Func, d int) {
+		f = f.Origin()
+		if seen[f] {
+			return
+		}
+		seen[f] = true
+		decl := w.decls[f]
+		if decl == nil || decl.Body == nil {
+			return
+		}
+		out = append(out, decl.Body)
+		if d >= depth {
+			return
+		}
+		ast.Inspect(decl.Body, func(x ast.Node) bool {
+			if c, ok := x.(*ast.CallExpr); ok {
+				if cf := callee(p.TypesInfo, c); cf != nil && cf.Pkg() == p.Types {
+					visit(cf, d+1)
+				}
+			}
+			return true
+		})
+	}
+	visit(fn, 0)
+	return out
+}
